@@ -689,7 +689,7 @@ def guards_at(body, bb, facts=None, inline=True, _depth=0):
     if _FRESH_GUARDS and facts is not None and _depth == 0:
         # a condition checked before a write to the state it mentions is no fact after that write (rules/fresh.py)
         from . import fresh
-        res = [g for g in res if fresh.guard_survives(facts, body, cfg, g[1], g[2], bb)]
+        res = [g for g in res if fresh.guard_survives(facts, body, cfg, g[1], g[2], bb, g[0])]
     res = expand_short_circuit(body, facts, inline, res, _depth)
     return expand_discr_correlation(body, facts, inline, res, _depth)
 
